@@ -23,8 +23,9 @@ def gen_cases(out, explore):
     cases = []
     for _ in range(n_cases):
         buf = rnd.choice([0, 1, 5])
-        t0 = rnd.choice([0, 1_700_000_000 * 10**9])
-        extent = rnd.choice([3, 12, 30]) * MIN
+        # realistic epochs are not multiples of 256 ns (above 2^53 a float cannot hold them): half of the epoch stores are jittered
+        t0 = rnd.choice([0, 1_700_000_000 * 10**9, 1_700_000_000 * 10**9 + rnd.randrange(1, 10**9), 1_723_456_789 * 10**9 + rnd.randrange(1, 10**9)])
+        extent = rnd.choice([3, 12, 30]) * MIN + rnd.choice([0, rnd.randrange(1, 1000)])
         lo, hi = t0 + buf * MIN, t0 + extent - buf * MIN
         ntr = rnd.choice([2, 3, 5, 8])
         traces, nid = [], 1
